@@ -6,6 +6,7 @@ from scoda.exceptions.bar_exception import BarException
 from scoda.settings.settings import PPQN
 
 
+@guarded
 def check(r, items, num, den, keyname):
     inp = {"items": items, "num": num, "den": den, "key": keyname}
     src = timeline_rel(rel_msgs(items))
